@@ -349,7 +349,9 @@ func verifyFunc(p *Prog, db *ContractDB, fc *FuncContract, prop string) (u *Unit
 		if !x.hookFired[fc.Key+"|"+name] {
 			msg := fmt.Sprintf("WARNING: on-call hook %q of %s matched no call in the function", name, shortKey(fc.Key))
 			x.vc.note(msg)
-			fmt.Fprintln(os.Stderr, msg)
+			if os.Getenv("GOVC_HOOK_WARNINGS") != "" {
+				fmt.Fprintln(os.Stderr, msg)
+			}
 		}
 	}
 	v := x.addObl(exit, "vacuity", fmt.Sprintf("%s/vacuity:returns", shortFn(fn)), "true", fc.File, "some return is reachable under the precondition")
